@@ -564,6 +564,7 @@ pub fn gen_wild_argv(u: &mut Un, level: &Level) -> Vec<Vec<u8>> {
     ];
     let n = u.below(9);
     let mut out = Vec::new();
+    let mut long_used = false;
     for _ in 0..n {
         let item: Vec<u8> = match u.weighted(&[6, 4, 2, 1, 1]) {
             0 if !pool.is_empty() => u.pick(&pool).clone(),
@@ -581,9 +582,16 @@ pub fn gen_wild_argv(u: &mut Un, level: &Level) -> Vec<Vec<u8>> {
                         s.push(*u.pick(&ls));
                     }
                 }
-                if u.chance(30) {
+                // a very long cluster, once per line and of a few hundred letters: bpaf's
+                // repetition wrappers inside an adjacent group are cubic in the number of items
+                // (every start position x every repetition x a scan), so several clusters of
+                // 1500 letters (the first design) take many minutes without being a loop - a
+                // libFuzzer run found such a line, which the 60 s rule of C04 then (wrongly)
+                // called non-terminating
+                if !long_used && u.chance(30) {
+                    long_used = true;
                     let c = s.chars().last().unwrap();
-                    for _ in 0..1500 {
+                    for _ in 0..300 {
                         s.push(c);
                     }
                 }
